@@ -101,7 +101,7 @@ func toEv(e event.Event) Ev {
 		if ty == "input" {
 			ev = &Ev{2, fields(e, "smtp.line")}
 		} else if ty == "email" {
-			ev = &Ev{3, fields(e, "smtp.body")}
+			ev = &Ev{3, fields(e, "smtp.body", "smtp.Subject")}
 		}
 	case "redis":
 		ev = &Ev{4, fields(e, "redis.command")}
@@ -510,7 +510,7 @@ func main() {
 	}
 	var direct, viaSocket []Input
 	for _, in := range ins {
-		if in.Mode == "socket-burst" {
+		if in.Mode == "socket-burst" || in.Mode == "shared-port" {
 			viaSocket = append(viaSocket, in)
 		} else {
 			direct = append(direct, in)
@@ -548,7 +548,8 @@ func main() {
 			id := len(sock)
 			sdist["svc:"+sr.in.Svc]++
 			sdist[fmt.Sprintf("events:%d", minInt(len(sr.ob.Events), 3))]++
-			sock = append(sock, hx.Case{ID: id, Kind: sr.in.Svc, Input: sr.in, Obs: sr.ob, Coq: mkCase(id, sr.in, sr.ob)})
+			sdist["mode:"+sr.in.Mode]++
+			sock = append(sock, hx.Case{ID: id, Kind: sr.in.Svc, Input: sr.in, Obs: sr.ob, Crash: sr.crash, Coq: mkCase(id, sr.in, sr.ob)})
 		}
 		sdist["rounds"]++
 	}
